@@ -32,5 +32,5 @@ def obligations(tier):
     if tier == 'thorough':
         obls += [kern_obl(2, order=2, ntaps=4, maxin=2, engine='cr32s.c', timeout=1500), kern_obl(1, ntaps=4, split=1, maxin=2, engine='cr32s.c', timeout=1500)]
     obls += fifo_obls()      # fifo.h: reserve / compaction / growth / read / trim
-    obls += [vr_obl(1), vr_obl(2), vr_switch_obl(0), vr_switch_obl(1)]      # vr32.c: kernels' accesses and the stage-switch rescaling (shift / overflow checks on the real code)
+    obls += [vr_obl(1), vr_obl(2), vr_switch_obl(0), vr_switch_obl(1), vr_switch_obl(2), vr_switch_obl(3)]      # vr32.c: kernels' accesses and the stage-switch rescaling (shift / overflow checks on the real code)
     return obls
